@@ -31,7 +31,7 @@ LITERALS_QUICK = ["a", "ab", "a|", "|b", "a\\", "\\", "(", "a)", "[", "a[b", "]"
                   "abcdefgh", "a.b|c(d)e[f]g$", "ünï¢ødé", "a" * 12 + "|" + "b" * 12]
 LITERALS_MORE = ["a|b", "(a|b)", "(?:", "a\\\\", "\\(", "[a]", "[^", "a{1,2}", "$", "^", "\\b", "a\\b", "\\A", "(?=a)", "\n", "a\nb", "-", "a-z", "}", "?"]
 CLASS_LEAVES = [("AnyLetter", ()), ("AnyFrom", ("|", "a")), ("AnyFrom", (")", "(")), ("AnyFrom", ("]",)), ("AnyDigit", ()), ("AnyButFrom", ("$",)),
-                ("AnyFrom", ("?", "*")), ("Any", ())]
+                ("AnyFrom", ("?", "*")), ("Any", ()), ("AnyButFrom", ("\\",)), ("AnyBetween", ("A", "\\")), ("AnyFrom", ("\\", "]"))]
 TOKEN_LEAVES = ["Backslash", "Newline", "Dollar"]
 
 UNARY1 = ["optional", "at_least2", "capture", "named_capture", "group", "group_i", "match_at_start", "match_at_line_end"]
@@ -222,7 +222,7 @@ def run_all(ctx, model):
     """Evaluate the whole family (in parallel) and return the records."""
     lv = leaves(ctx.tier)
     lits = [l for l in lv if l[0] == "lit"]
-    partner = [("lit", "b"), ("lit", "p|q"), ("lit", "c\\"), ("cls", ("AnyLetter", ()))]
+    partner = [("lit", "b"), ("lit", "p|q"), ("lit", "c\\"), ("cls", ("AnyLetter", ())), ("cls", ("AnyButFrom", ("\\",)))]
     jobs = []
     for xs in lv:
         for op in UNARY1:
